@@ -529,7 +529,9 @@ impl<'a> Gen<'a> {
 
     // ---------------------------------------------------------------- windows
 
-    fn window(&mut self, sc: &GScope) -> Option<(Expr, Ty)> {
+    /// `allow_tie_sensitive`: with duplicate input rows two tie-order-sensitive window functions could
+    /// legitimately order the duplicates differently, so at most one per SELECT is generated.
+    fn window(&mut self, sc: &GScope, allow_tie_sensitive: bool) -> Option<(Expr, Ty, bool)> {
         if sc.len() > 9 || sc.is_empty() {
             return None;
         }
@@ -553,9 +555,13 @@ impl<'a> Gen<'a> {
         };
         let oc = self.rng.pick(sc).clone();
         let lead = vec![OrderItem { expr: Expr::Col { rel: oc.rel.clone(), name: oc.name.clone() }, desc: self.rng.chance(1, 3), nulls_first: if self.rng.chance(1, 3) { Some(self.rng.bool()) } else { None } }];
-        let k = self.rng.below(12);
+        let mut k = self.rng.below(12);
+        if !allow_tie_sensitive && matches!(k, 0 | 3 | 4 | 5 | 6 | 8 | 9) {
+            k = *self.rng.pick(&[1u64, 2, 7, 10]);
+        }
+        let sensitive = matches!(k, 0 | 3 | 4 | 5 | 6 | 8 | 9);
         let num_ty = *self.rng.pick(&[Ty::Int, Ty::Float]);
-        Some(match k {
+        let (e, ty) = (match k {
             // ranking functions are UInt64 in the engine: cast so that set operations / comparisons with
             // BIGINT do not depend on the engine's unsigned/signed coercion choice (types are C30's business)
             0 => (Expr::Cast(Box::new(Expr::Win { f: WinFn::RowNumber, args: vec![], partition_by, order_by: total_order(self, lead), frame: None }), Ty::Int), Ty::Int),
@@ -610,7 +616,8 @@ impl<'a> Gen<'a> {
                 let frame = Some(self.frame(FrameUnit::Range));
                 (Expr::Win { f, args: vec![self.expr(sc, Ty::Int, 1)], partition_by, order_by, frame }, Ty::Int)
             }
-        })
+        });
+        Some((e, ty, sensitive))
     }
 
     fn frame(&mut self, unit: FrameUnit) -> Frame {
@@ -735,14 +742,16 @@ impl<'a> Gen<'a> {
         }
         let mut items = vec![];
         let mut tys = vec![];
+        let mut tie_sensitive_used = false;
         for i in 0..n_items {
             let ty = item_ty(self, i);
             let mut e = None;
             if self.cfg.windows && self.outer.is_empty() && self.rng.chance(1, 8) {
-                if let Some((w, wty)) = self.window(&sc) {
+                if let Some((w, wty, sensitive)) = self.window(&sc, !tie_sensitive_used) {
                     if wty == ty || want.is_none() {
                         tys.push(wty);
                         e = Some(w);
+                        tie_sensitive_used |= sensitive;
                     }
                 }
             }
